@@ -266,4 +266,57 @@ Section Mirror.
       + destruct (IH _ _ _ _ _ _ H) as [i2 [-> F2]]. exists i2. split; [reflexivity|].
         eapply Forall_impl; [|exact F2]. intros i. apply justified_tail.
   Qed.
+  (* every file a declaration of the module text refers to is planned in this very run: with
+     generated_files_equal_clean_build (C12) this makes every file reachable from templates.rs equal
+     to the clean build's, whatever stale files an earlier build left beside them *)
+  Definition item_planned (outdir : bytes) (w' : world) (i : ditem) : Prop :=
+    match i with
+    | DTemplate name => exists code, In (tfile outdir name, code) (plan w')
+    | DDir d => exists modrs, In (pjoin (pjoin outdir d) (b "mod.rs"), modrs) (plan w')
+    end.
+  Lemma item_planned_mono outdir w d i : item_planned outdir w i -> item_planned outdir (wapp w d) i.
+  Proof. destruct i; cbn [item_planned]; intros [x I]; exists x; cbn [plan wapp]; apply in_app_iff; now left. Qed.
+
+  Lemma suffix_loop_grows ss w f indir outdir filename content w' f' :
+    suffix_loop uni_esc compile w f indir outdir filename content ss = BOk _ (w', f') -> exists d, w' = wapp w d.
+  Proof.
+    intros H. rewrite suffix_loop_frame in H.
+    destruct (suffix_loop uni_esc compile w_empty [] indir outdir filename content ss) as [[d g]| |]; try discriminate.
+    cbn [lift2] in H. exists d. now inversion H.
+  Qed.
+
+  Lemma suffix_loop_planned ss : forall w f indir outdir filename content w' f',
+    suffix_loop uni_esc compile w f indir outdir filename content ss = BOk _ (w', f') ->
+    exists items, f' = f ++ flat_map render_item items /\ Forall (item_planned outdir w') items.
+  Proof.
+    induction ss as [|s ss IH]; intros w f indir outdir filename content w' f' H.
+    - cbn in H. inversion H; subst. exists []. cbn. split; [now rewrite app_nil_r|constructor].
+    - cbn [suffix_loop] in H. destruct (ends_with filename s) eqn:E; [|now apply IH in H].
+      cbv zeta in H. unfold handle_template in H.
+      destruct (compile (suffix_name filename s) content) as [code|diag| |] eqn:C; try discriminate.
+      + destruct (suffix_loop_grows _ _ _ _ _ _ _ _ _ H) as [d ->]. destruct (IH _ _ _ _ _ _ _ _ H) as [items [-> F]].
+        exists (DTemplate (suffix_name filename s) :: items). split; [cbn [flat_map render_item]; now rewrite <- app_assoc|].
+        constructor; [|exact F]. cbn [item_planned]. exists code. cbn [plan wapp write_if_changed announce_read note_read say].
+        unfold tfile. rewrite !in_app_iff. cbn [In]. tauto.
+      + now apply IH in H.
+  Qed.
+
+  Theorem declared_files_planned_lemma rec (Hrec : framed rec) : forall es w f indir outdir w' f',
+    entries_loop uni_esc compile rec w f indir outdir es = BOk _ (w', f') ->
+    exists items, f' = f ++ flat_map render_item items /\ Forall (item_planned outdir w') items.
+  Proof.
+    induction es as [|[filename [content|sub]] rest IH]; intros w f indir outdir w' f' H.
+    - cbn in H. inversion H; subst. exists []. cbn. split; [now rewrite app_nil_r|constructor].
+    - cbn [entries_loop] in H. destruct (utf8_valid filename) eqn:V; [|now apply IH in H].
+      destruct (suffix_loop uni_esc compile w f indir outdir filename content template_suffixes) as [[w1 f1]| |] eqn:S; try discriminate.
+      destruct (suffix_loop_planned _ _ _ _ _ _ _ _ _ S) as [i1 [-> F1]].
+      destruct (loop_grows rec Hrec _ _ _ _ _ _ _ H) as [d [g [-> _]]]. destruct (IH _ _ _ _ _ _ H) as [i2 [-> F2]].
+      exists (i1 ++ i2). split; [now rewrite flat_map_app, app_assoc|]. apply Forall_app. split; [|exact F2].
+      eapply Forall_impl; [|exact F1]. intros i. apply item_planned_mono.
+    - cbn [entries_loop] in H. destruct (utf8_valid filename) eqn:V; [|now apply IH in H].
+      destruct (rec (announce_read w (indir ++ [47%N] ++ filename)) modrs_header (indir ++ [47%N] ++ filename) (pjoin outdir filename) sub) as [[w2 modrs]| |]; try discriminate.
+      destruct (loop_grows rec Hrec _ _ _ _ _ _ _ H) as [d [g [-> _]]]. destruct (IH _ _ _ _ _ _ H) as [i2 [-> F2]].
+      exists (DDir filename :: i2). split; [cbn [flat_map render_item]; now rewrite <- !app_assoc|].
+      constructor; [|exact F2]. cbn [item_planned]. exists modrs. cbn [plan wapp write_if_changed]. rewrite !in_app_iff. cbn [In]. tauto.
+  Qed.
 End Mirror.
